@@ -5,7 +5,10 @@ transport.  ``subscriptionmgr_base.time`` is a ``ParkingClock``: the real housek
 second when the harness advances the clock.  Subscribers are raw: Subscribe / Renew / GetStatus / Unsubscribe are built with the
 library's message factory and posted to the hosted services; every subscriber owns a fake HTTP server whose component records
 what arrives; delivery faults (HTTP 404/500 with and without SOAP fault body, refused connection, timeout) are injected by the
-network policy.  Reports come from real provider transactions and from the SetService (OperationInvokedReport).
+network policy; faults of the connect phase of the synchronous SOAP client (refused / unanswered connect, raised un-wrapped by its
+implicit connect) by the connection object the wrapped client class creates.  Some subscribers are the library's own consumer-side
+``ConsumerSubscription`` objects (they build the requests and read the responses).  Filters contain look-alikes of the offered
+actions.  Reports come from real provider transactions and from the SetService (OperationInvokedReport).
 
 Observation point = every message the provider hands to a subscriber-facing SOAP client (wrapper around the loop-back client
 class) plus the wire entry it produced.  Oracle = ``vf.submodel.SubModel`` (written from the statement, never reads the library).
@@ -39,6 +42,25 @@ FLAVOURS = {
     'ref_async': ('sdc11073.provider.subscriptionmgr_async', 'SubscriptionsManagerReferenceParamAsync', True),
 }
 FAULT_KINDS = ['http404', 'http500', 'http404_fault', 'http500_fault', 'refused', 'timeout']
+# faults of the CONNECT phase (nobody listens / SYN unanswered): the synchronous SOAP client raises them from its implicit connect,
+# un-wrapped (ConnectionRefusedError / TimeoutError), and tries to connect again for the next message; the async client has no separate
+# connect phase (there the kinds mean: the next n messages to that host:port are refused / time out)
+CONNECT_KINDS = ['connect_refused', 'connect_timeout']
+# requests that name no subscription of the addressed manager: an identifier nobody was given, none at all, the identifier of a
+# subscription of the other hosted service, a foreign reference parameter; and near misses of an identifier that IS known: one more
+# path element behind it, its upper-case spelling, all but its last character
+BOGUS_KINDS = ['random_id', 'no_id', 'wrong_service', 'foreign_refparam', 'id_plus_segment', 'upper_id', 'truncated_id']
+# filter strings that are NOT the offered action but resemble it (class -> how it is derived from the action URI .../Service/Name)
+DECOYS = {
+    'V': 'same_last_segment',      # http://vendor.example/ext/v2/Name
+    'M': 'sibling_service',        # .../VfOtherService/Name
+    'L': 'last_segment_only',      # Name
+    'P': 'service_prefix',         # .../Service
+    'C': 'case_variant',           # .../Service/nAME
+    'S': 'trailing_slash',         # .../Service/Name/
+    'T': 'truncated',              # .../Service/Nam
+    'A': 'appended',               # .../Service/NameX   (also written Name+X)
+}
 REPORT_KINDS = ['metric', 'alert', 'component', 'operational', 'context', 'descr', 'rt', 'opinvoked']
 STATE_ACTIONS = ['EpisodicMetricReport', 'EpisodicAlertReport', 'EpisodicComponentReport', 'EpisodicOperationalStateReport',
                  'EpisodicContextReport', 'DescriptionModificationReport', 'Waveform', 'PeriodicMetricReport', 'SystemErrorReport']
@@ -135,7 +157,15 @@ def wrap_client(base, rig, is_async):
                 return result
         return HandoffClientAsync
 
+    class Connection(loopback.FakeConnection):
+        def connect(self):
+            rig.on_connect(self.netloc)  # raises what a refused / unanswered connect raises
+            super().connect()
+
     class HandoffClient(base):
+        def _mk_http_connection(self):
+            return Connection(rig.net, self._netloc, self._ssl_context)
+
         def post_message_to(self, path, created_message, msg='', request_manipulator=None, validate=True):
             rec = rig.handoff_begin(self._netloc, path, created_message)
             try:
@@ -203,6 +233,8 @@ class Rig:
         self.subs: list[dict] = []
         self.by_endpoint: dict = {}
         self.armed: dict = {}
+        self.connect_plan: dict = {}
+        self.consumer_clients: dict = {}
         self.event = None
         self.unsub_in_delivery = None
         self.unsub_during_event = {}
@@ -300,6 +332,18 @@ class Rig:
                 pass
         hib = rec['hib']
         return hib.Action, hib.To, tuple(sorted((el.tag, el.text) for el in hib.reference_parameters)), None
+
+    def on_connect(self, netloc):
+        """connect phase of the synchronous SOAP client (fresh client, or one that was closed without a connection error)."""
+        self.ctx.count('connect.attempts')
+        plan = self.connect_plan.get(netloc)
+        if not plan:
+            return
+        kind = plan.pop(0)
+        self.ctx.count(f'fault.injected.{kind}')
+        if kind == 'connect_refused':
+            raise ConnectionRefusedError(111, 'Connection refused')
+        raise TimeoutError('timed out')
 
     def policy(self, entry):
         pending = getattr(self, 'unsub_in_delivery', None)
@@ -400,6 +444,7 @@ class Rig:
                              'being delivered to another subscriber)', sub=k, action=ev['action'])
             ev['expect'][k] = None  # both "sent before the Unsubscribe" and "not sent" are fine
         during.clear()
+        t1 = self.now  # > ev['t'] if a delivery of this report took (virtual) time
         for k, exp in ev['expect'].items():
             recs = got.get(k, [])
             n = len(recs)
@@ -413,12 +458,30 @@ class Rig:
                 if n:
                     self.book(k, recs[0], ev['t'])
                 continue
+            if exp and t1 > ev['t'] + EPS and model.should_send(k, t1, ev['action']) is not True:
+                # this subscription expired while the report was being sent to the others: the statement judges "at send time" =
+                # the instant of the hand-over.  Not handed at all is right as well (its turn may have come after the expiry).
+                ctx.count('delivery.decisions')
+                if n and model.should_send(k, recs[0]['t'], ev['action']) is False:
+                    self.witness(f'deliver.after_expiry.during_send.{self.sa}',
+                                 'report handed to a subscription that had expired at the time of the hand-over (it was still valid when '
+                                 'the delivery of the same report to the other subscribers began)', sub=k, action=ev['action'],
+                                 handed_at=recs[0]['t'], report_started_at=ev['t'], sub_info=self.sub_info(k))
+                else:
+                    ctx.count(f'delivery.expired_during_send.{"handed_while_valid" if n else "not_handed"}')
+                if n:
+                    self.book(k, recs[0], recs[0]['t'])
+                continue
             ctx.count('delivery.decisions')
             if exp and n >= 1:
                 ctx.count('delivery.sent_as_expected')
                 self.book(k, recs[0], ev['t'])
             elif not exp and n == 0:
                 ctx.count(f'delivery.suppressed.{"filter" if reason in (None, "near_expiry") else reason}')
+                if reason is None:
+                    for cls, imitated in sub['decoys'].items():
+                        if ev['action'] in imitated:  # the filter holds a look-alike of exactly this action, and nothing was sent
+                            ctx.count(f'delivery.suppressed.filter_decoy.{cls}')
             elif exp and n == 0:
                 self.witness(f'deliver.missing.{self.sa}', 'live subscription with matching filter was not sent the report',
                              sub=k, action=ev['action'], sub_info=self.sub_info(k))
@@ -438,7 +501,8 @@ class Rig:
                 else:
                     key = f'deliver.to_dead.{reason}.{self.sa}'
                 self.witness(key, f'report handed to a subscription that must not get it ({reason or "action not in filter"})',
-                             sub=k, action=ev['action'], sub_info=self.sub_info(k))
+                             sub=k, action=ev['action'], sub_info=self.sub_info(k),
+                             look_alikes_in_filter=sorted(c for c, im in sub['decoys'].items() if ev['action'] in im))
                 if reason == 'failure_limit':
                     # follow the library after the witness (one witness per cause, no cascade): it evidently did not count every
                     # failure; its counter = the failures of the current streak that its SOAP client reported, since the last one
@@ -470,7 +534,10 @@ class Rig:
             kind = f'no_wire_{rec["outcome"]}'
             self.models[sub['mgr']].delivery(k, t, False, kind)
             sub['streak'].append((kind, rec['outcome']))
-            self.ctx.count(f'obs.handoff_without_wire.{rec["outcome"]}.{self.sa}')
+            if rec['outcome'] in ('ConnectionRefusedError', 'TimeoutError'):
+                self.ctx.count(f'delivery.failed.at_connect.{rec["outcome"]}')
+            else:
+                self.ctx.count(f'obs.handoff_without_wire.{rec["outcome"]}.{self.sa}')
 
     @staticmethod
     def streak_class(sub):
@@ -487,7 +554,7 @@ class Rig:
     def sub_info(self, k):
         sub = self.subs[k]
         s = self.models[sub['mgr']].subs.get(k)
-        return {'mgr': sub['mgr'], 'filter': sorted(sub['filter_names']), 'accepted_at': s.accepted_at, 'expires_at': s.expires_at,
+        return {'mgr': sub['mgr'], 'filter': sorted(s.actions), 'accepted_at': s.accepted_at, 'expires_at': s.expires_at,
                 'unsubscribed_at': s.unsubscribed_at, 'failures': s.failures, 'fail_kinds': [str(x) for x in s.fail_kinds],
                 'limit': self.limit, 'request': sub['request']}
 
@@ -544,6 +611,14 @@ class Rig:
         if not self.subs:
             return
         sub = self.subs[st['sub'] % len(self.subs)]
+        if st['kind'] in CONNECT_KINDS:
+            epr = sub['end'] if st.get('target') == 'end' and sub['end'] is not None else sub['notify']
+            netloc = urlparse(epr[0]).netloc
+            if self.is_async:  # no separate connect phase: the next n messages to that host:port fail
+                self.armed.setdefault((netloc, None), []).extend([st['kind'][len('connect_'):]] * st['n'])
+            else:
+                self.connect_plan.setdefault(netloc, []).extend([st['kind']] * st['n'])
+            return
         if st.get('whole_netloc'):
             netloc = urlparse(sub['notify'][0]).netloc
             self.armed.setdefault((netloc, None), []).extend([st['kind']] * st['n'])
@@ -592,10 +667,18 @@ class Rig:
         address = self.hosted[mgr_name]
         msg = self.mf.mk_soap_message_etree_payload(HeaderInformationBlock(action=EventingActions.Subscribe, addr_to=address), body)
         before = self.lib_state()
-        resp = self.post(address, msg.serialize(), accept_encoding=st['accept_encoding'])
+        cs = None
+        if st.get('via') == 'consumer_class' and st['dialect'] == 'action' and st['expires'] is not None:
+            # role: the library's own consumer-side subscription object builds the Subscribe (and later Renew / GetStatus /
+            # Unsubscribe) and reads the responses; it can carry one reference parameter per EPR
+            notify_rp = notify_rp[:1]
+            end = end and (end[0], end[1][:1])
+            cs, resp = self.consumer_subscribe(mgr_name, req.Filter.text, (notify_addr, notify_rp), end, st['expires'])
+        else:
+            resp = self.post(address, msg.serialize(), accept_encoding=st['accept_encoding'])
         valid = st['dialect'] == 'action'
         req_shape = {'expires': st['expires'], 'dialect': st['dialect'], 'filter': st['filter'], 'accept_encoding': st['accept_encoding'],
-                     'end': st['end'], 'notify_rp': st['notify_rp'], 'end_rp': st['end_rp']}
+                     'end': st['end'], 'notify_rp': len(notify_rp), 'end_rp': len(end[1]) if end else 0, 'via': 'consumer_class' if cs else 'raw'}
         model = self.models[mgr_name]
         if resp['fault'] or resp['body'] != 'SubscribeResponse':
             ctx.count(f'subscribe.refused.{"valid" if valid else "invalid"}_request')
@@ -615,8 +698,11 @@ class Rig:
         ident = (urlparse(epr_addr).path.rsplit('/', 1)[-1] if self.by_path_dispatch else (epr_rp[0].text if epr_rp else None))
         sub = {'k': k, 'mgr': mgr_name, 'subscriber': st['subscriber'], 'notify': (notify_addr, notify_rp), 'end': end,
                'filter_names': {u.rsplit('/', 1)[-1] for u in filter_uris}, 'mgr_epr': (epr_addr, epr_rp), 'ident': ident,
-               'request': req_shape, 'streak': []}
+               'request': req_shape, 'streak': [], 'decoys': self.decoys_of(st['filter']) if st['dialect'] is not None else {},
+               'cs': cs}
         self.subs.append(sub)
+        for cls in sub['decoys']:
+            ctx.count(f'subscribe.filter_decoy.{cls}')
         u = urlparse(notify_addr)
         self.by_endpoint[(u.netloc, u.path)] = ('notify', k)
         if end is not None:
@@ -625,14 +711,88 @@ class Rig:
         granted = self.check_granted('subscribe', st['expires'], granted, model, resp)
         model.subscribe(k, self.now, granted, filter_uris if st['dialect'] is not None else [], sub['notify'], end)
 
+    def consumer_soap_client(self, address):
+        """get_soap_client_func of the consumer side: the library's synchronous SOAP client on the loop-back network."""
+        netloc = urlparse(address).netloc
+        client = self.consumer_clients.get(netloc)
+        if client is None:
+            from sdc11073 import loghelper
+            from sdc11073.definitions_sdc import SdcV1Definitions
+            from sdc11073.pysoap.msgreader import MessageReader
+            log = loghelper.get_logger_adapter('vf.c08.consumer')
+            reader = _CACHE.get('reader')
+            if reader is None:
+                reader = _CACHE['reader'] = MessageReader(SdcV1Definitions, None, log, validate=True)
+            client = self.consumer_clients[netloc] = loopback.mk_soap_client_class(self.net)(netloc, 5, log, None, SdcV1Definitions, reader)
+        return client
+
+    def consumer_subscribe(self, mgr_name, filter_text, notify, end, expires):
+        from sdc11073.consumer.subscription import ConsumerSubscription
+        from sdc11073.xml_types import eventing_types as evt
+        from sdc11073.xml_types.addressing_types import EndpointReferenceType
+        from sdc11073.xml_types.dpws_types import DeviceEventingFilterDialectURI, HostedServiceType
+        hosted = HostedServiceType()
+        epr = EndpointReferenceType()
+        epr.Address = self.hosted[mgr_name]
+        hosted.EndpointReference.append(epr)
+        flt = evt.FilterType()
+        flt.text, flt.Dialect = filter_text, DeviceEventingFilterDialectURI.ACTION
+        cs = ConsumerSubscription(self.mf, self.provider.mdib.data_model, self.consumer_soap_client, hosted, flt, notify[0],
+                                  end[0] if end else None, 'vf')
+        if notify[1]:
+            cs.notify_to_identifier = self._rp(*notify[1][0])
+        if end and end[1]:
+            cs.end_to_identifier = self._rp(*end[1][0])
+        self.ctx.count('consumer_class.subscribe')
+        cs.subscribe(expires=expires)
+        if not cs.is_subscribed:
+            return None, {'fault': True, 'body': None, 'expires': None, 'mgr_epr': None, 'status': None}
+        mgr = cs.subscribe_response.SubscriptionManager
+        return cs, {'fault': False, 'body': 'SubscribeResponse', 'expires': cs.granted_expires, 'expires_text': repr(cs.granted_expires),
+                    'mgr_epr': (mgr.Address, list(mgr.ReferenceParameters or [])), 'status': 200}
+
+    def consumer_request(self, cs, op, expires):
+        """the consumer-side object sends the request; what IT reports is judged (it gives up the subscription on a fault)."""
+        from sdc11073.pysoap.soapclient import HTTPReturnCodeError
+        self.ctx.count(f'consumer_class.{op}')
+        out = {'fault': False, 'expires': None, 'body': None, 'action': None, 'status': None}
+        if op == 'unsubscribe':
+            try:
+                cs.unsubscribe()  # raises unless the answer is an UnsubscribeResponse
+                out['action'] = f'{WSE_NS}/UnsubscribeResponse'
+            except HTTPReturnCodeError:
+                out['fault'] = True
+            return out
+        value = cs.renew(expires) if op == 'renew' else cs.get_status()
+        out['fault'] = not cs.is_subscribed
+        out['expires'] = None if out['fault'] else value
+        out['expires_text'] = repr(value)
+        return out
+
     def resolve_action(self, name):
         """'Name' -> offered action URI; 'Name+X' -> URI + 'X' (decoy: contains the action, must never match);
-        'X+Name' -> 'urn:x:' + URI (the action is a proper suffix of the filter string); anything else literally."""
+        'X+Name' -> 'urn:x:' + URI (the action is a proper suffix of the filter string); '<D>+Name' with D in DECOYS -> a URI that
+        resembles the action but is another one (must never match); anything else literally."""
         if name.endswith('+X') and name[:-2] in self.actions:
             return self.actions[name[:-2]] + 'X'
         if name.startswith('X+') and name[2:] in self.actions:
             return 'urn:x:' + self.actions[name[2:]]
+        if name[1:2] == '+' and name[0] in DECOYS and name[2:] in self.actions:
+            uri = self.actions[name[2:]]
+            head, last = uri.rsplit('/', 1)
+            return {'V': f'http://vendor.example/ext/v2/{last}', 'M': f'{head.rsplit("/", 1)[0]}/VfOtherService/{last}', 'L': last,
+                    'P': head, 'C': f'{head}/{last.swapcase()}', 'S': uri + '/', 'T': uri[:-1], 'A': uri + 'X'}[name[0]]
         return self.actions.get(name, name)
+
+    def decoys_of(self, names):
+        """{decoy class: {action URIs it imitates}} of a filter given as generator names."""
+        out: dict = {}
+        for name in names:
+            if name.endswith('+X') and name[:-2] in self.actions:
+                out.setdefault('appended', set()).add(self.actions[name[:-2]])
+            elif name[1:2] == '+' and name[0] in DECOYS and name[2:] in self.actions:
+                out.setdefault(DECOYS[name[0]], set()).add(self.actions[name[2:]])
+        return out
 
     @staticmethod
     def _rp(tag, text):
@@ -683,7 +843,13 @@ class Rig:
         reason = model.dead_reason(k, self.now)
         before = self.lib_state()
         addr, rps = sub['mgr_epr']
-        resp = self._request(op, addr, rps, st.get('expires'))
+        requested = st.get('expires')
+        if sub.get('cs') is not None and sub['cs'].is_subscribed:  # (once it has given up, the subscriber goes on with raw requests)
+            if op == 'renew' and requested is None:
+                requested = 3600  # this subscriber always states a duration
+            resp = self.consumer_request(sub['cs'], op, requested)
+        else:
+            resp = self._request(op, addr, rps, requested)
         is_fault = bool(resp['fault'])
         ctx.count(f'request.{op}.{"fault" if is_fault else "served"}.{reason or "live"}')
         if is_fault:
@@ -715,7 +881,7 @@ class Rig:
                     self.witness(f'expiry.getstatus_inconsistent.{self.sa}', 'GetStatus reports a remaining time inconsistent with the granted expiry',
                                  sub=k, reported=resp['expires'], model=want, sub_info=self.sub_info(k))
         elif op == 'renew':
-            granted = self.check_granted('renew', st.get('expires'), resp['expires'], model, resp)
+            granted = self.check_granted('renew', requested, resp['expires'], model, resp)
             if reason == 'expired':
                 ctx.count('obs.renew_revives_expired_entry_before_housekeeping')
             model.renew(k, self.now, granted)
@@ -744,6 +910,24 @@ class Rig:
                 address, rps = self.hosted[other], sub['mgr_epr'][1]
         elif kind == 'foreign_refparam':
             rps = [self._rp(f'{{{VF_NS}}}Other', 'x')]
+        elif kind in ('id_plus_segment', 'upper_id', 'truncated_id'):
+            # near misses of the identifier of a subscription of THIS manager (the Subscribe response gave exactly one identifier)
+            mine = [x for x in self.subs if x['mgr'] == mgr_name and x['ident']]
+            if not mine:
+                return
+            sub = mine[st['sub'] % len(mine)]
+            ident = sub['ident']
+            if kind == 'id_plus_segment':
+                address = sub['mgr_epr'][0].rstrip('/') + '/vf'
+                rps = sub['mgr_epr'][1]
+            else:
+                fake = ident.upper() if kind == 'upper_id' else ident[:-1]
+                if fake == ident:
+                    return
+                if self.by_path_dispatch:
+                    address = f'{address}/{fake}'
+                else:
+                    rps = [self._rp(ident_tag, fake)]
         # kind == 'no_id': bare hosted service address, no identifier at all
         before = self.lib_state()
         resp = self._request(op, address, rps, st.get('expires'))
@@ -952,23 +1136,28 @@ def gen_subscribe(rng, n_subscribers, maxd, hostile=True):
     elif r < 0.75:
         flt = list(STATE_ACTIONS) + ['urn:vf:c08:unknown-action']  # superset of everything offered
     elif r < 0.9:
-        # decoys: an offered action with something appended (must never match), plus some real ones
-        flt = [name + '+X' for name in rng.sample(STATE_ACTIONS[:5], 2)] + rng.sample(STATE_ACTIONS[:7], 1)
+        # look-alikes of two offered actions (appended text, same last path segment under another service / vendor, last segment only,
+        # service prefix, other case, trailing slash, truncated: must never match), plus a real one
+        flt = [f'{cls}+{name}' for cls, name in zip(rng.sample(sorted(DECOYS), 2), rng.sample(STATE_ACTIONS[:5], 2))] \
+            + rng.sample(STATE_ACTIONS[:7], 1)
     else:
         flt = ['urn:vf:c08:unknown-action']
     dialect = 'action'
     if hostile and rng.random() < 0.06:
         dialect = rng.choice(['urn:vf:c08:dialect', None])
     expires = rng.choice([None, 0, 0.004, 0.5, 1.5, 3, 3, 10.25, 10.25, maxd, maxd + 30, 172800] if hostile else [None, 3, 10.25, maxd + 30])
-    return {'op': 'subscribe', 'subscriber': rng.randrange(n_subscribers), 'mgr': mgr, 'filter': flt, 'dialect': dialect,
-            'expires': expires, 'notify_rp': rng.choice([0, 0, 1, 2]), 'end': rng.choice([None, 'same', 'same', 'other']),
-            'end_rp': rng.choice([0, 0, 1]), 'accept_encoding': rng.choice(['gzip', 'gzip', 'gzip, x-lz4', None] if hostile else ['gzip'])}
+    st = {'op': 'subscribe', 'subscriber': rng.randrange(n_subscribers), 'mgr': mgr, 'filter': flt, 'dialect': dialect,
+          'expires': expires, 'notify_rp': rng.choice([0, 0, 1, 2]), 'end': rng.choice([None, 'same', 'same', 'other']),
+          'end_rp': rng.choice([0, 0, 1]), 'accept_encoding': rng.choice(['gzip', 'gzip', 'gzip, x-lz4', None] if hostile else ['gzip'])}
+    if dialect == 'action' and expires is not None and rng.random() < 0.15:
+        st['via'] = 'consumer_class'
+    return st
 
 
 def gen_steps(rng, n, maxd, limit):
     n_subscribers = rng.randint(1, 5)
     steps = []
-    nsubs = 0
+    nsubs = fresh = 0
     for i in range(n - 1):
         r = rng.random()
         recent = lambda: (nsubs - 1 - min(int(rng.expovariate(0.5)), nsubs - 1)) if nsubs else 0  # noqa: E731
@@ -991,15 +1180,28 @@ def gen_steps(rng, n, maxd, limit):
             steps.append({'op': 'request', 'kind': 'unsubscribe', 'sub': recent()})
         elif r < 0.88:
             steps.append({'op': 'bogus', 'kind': rng.choice(['renew', 'getstatus', 'unsubscribe']), 'mgr': rng.choice(['StateEvent', 'Set']),
-                          'bogus': rng.choice(['random_id', 'no_id', 'wrong_service', 'foreign_refparam']), 'sub': recent(),
+                          'bogus': rng.choice(BOGUS_KINDS), 'sub': recent(),
                           'salt': rng.getrandbits(120), 'expires': 5})
-        else:
-            st = {'op': 'arm', 'sub': recent(), 'kind': rng.choice(FAULT_KINDS), 'n': rng.choice([1, 1, limit, limit + 1]),
-                  'target': rng.choice(['notify', 'notify', 'notify', 'end'])}
+        elif r < 0.97 or nsubs > 8:
+            st = {'op': 'arm', 'sub': recent(), 'kind': rng.choice(FAULT_KINDS + FAULT_KINDS + CONNECT_KINDS),
+                  'n': rng.choice([1, 1, limit, limit + 1]), 'target': rng.choice(['notify', 'notify', 'notify', 'end'])}
             if rng.random() < 0.15:
                 st['whole_netloc'] = True
             steps.append(st)
             steps.append({'op': 'report', 'kind': rng.choice(REPORT_KINDS[:5]), 'seed': rng.randrange(1 << 30)})
+        else:
+            # a subscriber nobody has delivered to yet takes two overlapping subscriptions and is not reachable for the first connect(s):
+            # the first delivery includes the connect phase; the failure of one subscription's delivery is not one of its sibling
+            fresh += 1
+            a = gen_subscribe(rng, n_subscribers, maxd, hostile=False)
+            a.update(subscriber=n_subscribers + fresh, mgr='StateEvent', filter=list(STATE_ACTIONS[:7]))
+            b = dict(a, filter=rng.sample(STATE_ACTIONS[:5], 3), expires=rng.choice([None, 10.25, maxd + 30]),
+                     end=rng.choice([None, 'same', 'other']))
+            steps += [a, b, {'op': 'arm', 'sub': -1, 'kind': rng.choice(CONNECT_KINDS), 'n': rng.choice([1, 1, 2, limit + 1]),
+                             'target': 'notify'}]
+            nsubs += 2
+            for _ in range(rng.randint(2, 3)):
+                steps.append({'op': 'report', 'kind': rng.choice(REPORT_KINDS[:5]), 'seed': rng.randrange(1 << 30)})
     steps.append({'op': 'stop', 'send_end': rng.random() < 0.7})
     # after the stop: everything must be unknown and silent
     for _ in range(2):
@@ -1013,6 +1215,9 @@ def sub_step(mgr='StateEvent', flt=('EpisodicMetricReport',), expires=10.25, **k
           'end': None, 'end_rp': 0, 'accept_encoding': 'gzip'}
     st.update(kw)
     return st
+
+
+LIMIT_DEPENDENT = ('fault_', 'end_true', 'siblings_')  # directed sequences whose steps depend on the failure limit
 
 
 def directed(limit):
@@ -1063,9 +1268,47 @@ def directed(limit):
         sub_step(subscriber=0), sub_step(subscriber=1), sub_step(subscriber=2), sub_step(subscriber=3, flt=('EpisodicAlertReport',)), rep,
         {'op': 'report', 'kind': 'metric', 'seed': 7, 'unsubscribe_in_delivery': [0, 1, 2]}, rep,
         {'op': 'report', 'kind': 'metric', 'seed': 8, 'unsubscribe_in_delivery': [0, 1, 2]}, rep, alert, {'op': 'stop', 'send_end': True}]
+    # look-alike filters: every class of DECOYS for the action that is reported, next to an exact subscription (control)
+    metric, alrt = 'EpisodicMetricReport', 'EpisodicAlertReport'
+    out['filter_lookalikes'] = [sub_step(subscriber=0)] + [
+        sub_step(subscriber=1 + i % 3, flt=(f'{c}+{metric}', f'{c}+{alrt}') + ((alrt,) if i % 2 else ())) for i, c in enumerate(sorted(DECOYS))
+    ] + [sub_step(subscriber=4, flt=tuple(f'{c}+{metric}' for c in sorted(DECOYS))), rep, alert, rep, {'op': 'stop', 'send_end': True}]
+    # several subscriptions of ONE subscriber (same host:port) + one of another: only the deliveries of the first fail (HTTP error
+    # on its NotifyTo path / the subscriber is not reachable for the first connect); the siblings never had a failure
+    for kind in ('http500', 'http404_fault') + tuple(CONNECT_KINDS):
+        n = 1 if kind in CONNECT_KINDS else limit
+        # subscriptions 0-2 belong to ONE subscriber (same host:port): only the deliveries of 0 fail (HTTP error on its NotifyTo path /
+        # the subscriber is not reachable for the first connect), its siblings 1, 2 never had a failure; 3, 4 belong to a subscriber
+        # that stays down (all its subscriptions run into the limit); 5 is the control subscriber, served all the time
+        out[f'siblings_{kind}'] = [
+            sub_step(subscriber=0, end='same'), sub_step(subscriber=0, end='same', flt=(metric, alrt)), sub_step(subscriber=0, expires=None),
+            sub_step(subscriber=2, end='same'), sub_step(subscriber=2, flt=(metric, alrt)), sub_step(subscriber=1, end='same'),
+            {'op': 'arm', 'sub': 0, 'kind': kind, 'n': n, 'target': 'notify'},
+            {'op': 'arm', 'sub': 3, 'kind': kind, 'n': 4 * limit + 4, 'target': 'notify', 'whole_netloc': True}] + [rep] * (limit + 1) + [
+            alert, req('getstatus', 1), req('renew', 1, expires=5), adv(2.5), rep, req('getstatus', 0), req('getstatus', 5),
+            {'op': 'stop', 'send_end': True}]
+    # the EndTo host of one subscription is not reachable at stop: the others still get their SubscriptionEnd
+    out['end_connect_refused'] = [
+        sub_step(subscriber=1, end='other'), sub_step(subscriber=3, end='other', end_rp=1), sub_step(subscriber=0, end=None),
+        sub_step(subscriber=5, end='other'), rep, {'op': 'arm', 'sub': 0, 'kind': 'connect_refused', 'n': 1, 'target': 'end'},
+        {'op': 'arm', 'sub': 3, 'kind': 'connect_timeout', 'n': 1, 'target': 'end'}, {'op': 'stop', 'send_end': True}, rep]
+    # a subscription expires while the same report is being delivered to an earlier subscriber ("at send time")
+    out['expiry_during_delivery'] = [
+        sub_step(subscriber=0, expires=None), sub_step(subscriber=1, expires=2.95), sub_step(subscriber=2, expires=2.95, flt=(metric, alrt)),
+        sub_step(subscriber=3, expires=10), rep, adv(2.9), {'op': 'report', 'kind': 'metric', 'seed': 1, 'tick_in_delivery': 0.2}, rep,
+        req('getstatus', 3), {'op': 'stop', 'send_end': True}]
+    # role: subscriptions 0, 1 are held by the library's own consumer-side subscription object (it builds the requests and reads the
+    # responses; after a fault it gives the subscription up and the harness goes on with raw requests), 2 is a raw control
+    cc = {'via': 'consumer_class'}
+    out['consumer_class'] = [
+        sub_step(subscriber=0, expires=10, end='same', notify_rp=1, end_rp=1, **cc), sub_step(subscriber=1, flt=(metric, alrt), expires=3, **cc),
+        sub_step(subscriber=2), rep, req('getstatus', 0), req('renew', 0, expires=5), req('getstatus', 0), req('renew', 0, expires=1e6),
+        req('renew', 0, expires=None), alert, adv(3.2), rep, req('getstatus', 1), adv(2.5), req('renew', 1, expires=3), req('getstatus', 0),
+        req('unsubscribe', 0), rep, req('getstatus', 0), adv(2.5), req('getstatus', 0), req('unsubscribe', 0), rep,
+        {'op': 'stop', 'send_end': True}]
     bog = []
     for kind in ('renew', 'getstatus', 'unsubscribe'):
-        for b in ('random_id', 'no_id', 'wrong_service', 'foreign_refparam'):
+        for b in BOGUS_KINDS:
             bog.append({'op': 'bogus', 'kind': kind, 'mgr': 'StateEvent', 'bogus': b, 'sub': 0, 'salt': 12345, 'expires': 5})
     out['bogus'] = [sub_step(), sub_step(subscriber=1, mgr='Set', flt=('OperationInvokedReport',))] + bog + [
         rep, {'op': 'report', 'kind': 'opinvoked', 'seed': 4}, req('getstatus', 0), req('getstatus', 1), {'op': 'stop', 'send_end': False}]
@@ -1109,6 +1352,8 @@ def w_sequences(ctx: core.Ctx, arg):
         for f in [flavours[arg['i'] % 4]]:
             for limit in arg['limits']:
                 for name, steps in directed(limit or 1).items():
+                    if limit is not None and not name.startswith(LIMIT_DEPENDENT):
+                        continue  # no failed delivery in it: the limit makes no difference, it ran with the library's own limit
                     cfg = {'flavour': f, 'max': 20, 'limit': limit, 'mdib': MDIBS[0]}
                     run_sequence(ctx, cfg, steps, f'directed.{name}')
                     ctx.count(f'directed.{name}')
@@ -1123,8 +1368,11 @@ def w_sequences(ctx: core.Ctx, arg):
 
 
 def run(ctx: core.Ctx):
-    ctx.rule = ('seeded sequences of Subscribe / Renew / GetStatus / Unsubscribe / bogus requests, provider reports of 8 kinds, virtual-clock '
-                'advances (also to just before / at / after an expiry), armed delivery faults (6 kinds, below / at / above the failure limit) '
+    ctx.rule = ('seeded sequences of Subscribe / Renew / GetStatus / Unsubscribe / bogus requests (7 kinds: unknown, foreign and near-miss '
+                'identifiers), sent raw or by the library\'s own consumer-side subscription object, filters with look-alikes of the offered '
+                'actions (8 classes), provider reports of 8 kinds, virtual-clock advances (also to just before / at / after an expiry, and '
+                'across an expiry while a report is being delivered), armed delivery faults (6 kinds on the message + 2 of the connect phase, '
+                'below / at / above the failure limit, on one of several subscriptions of a subscriber or on its whole host:port) '
                 'and a final stop_all(True|False) + post-stop probes, x 4 manager classes x max duration {5,20,60,7200} x failure limit '
                 '{library constant, 2, 3}; plus directed corner sequences per class.  distinct = (class, max, limit, sequence of '
                 '(step kind, sub kind)); non-trivial = at least one delivery decision (sent / suppressed) was made against the model')
@@ -1136,6 +1384,12 @@ def run(ctx: core.Ctx):
         'a hand-over to the SOAP client that raises before anything reaches the wire (sync client after a connection error on the same '
         'netloc) counts as a failed delivery attempt',
         'observation point is the hand-over to the subscriber-facing SOAP client; delivery success is what the subscriber endpoint answered',
+        'send time of a notification = the instant of its hand-over; a subscription that expires while the same report is being delivered '
+        'to other subscribers may be handed the report before its expiry or not at all, never after it',
+        'connect-phase faults (refused / unanswered connect) exist for the synchronous SOAP client only (first message to a host:port, '
+        'implicit re-connect after a failed connect); for the async client the same step makes the next n messages to the host:port fail',
+        'a filter string is "the report\'s action" only if it is that URI; look-alikes (same last path segment elsewhere, last segment only, '
+        'service prefix, other case, trailing slash, truncated, text appended) never match',
     ]
     ctx.extra['observations_not_judged'] = [
         'obs.end.subscription_manager_address_without_slashes: SubscriptionEnd carries SubscriptionManager/Address "http:host:port/path" (C04 schema / content, not C08)',
@@ -1166,8 +1420,18 @@ def run(ctx: core.Ctx):
     ctx.floor('end.messages', 50)
     ctx.floor('clock.housekeeping_ticks', 500)
     ctx.floor('table.index_vs_scan', 2000)
-    for kind in FAULT_KINDS:
+    for kind in FAULT_KINDS + CONNECT_KINDS:
         ctx.floor(f'fault.injected.{kind}', 8)
+    for outcome in ('ConnectionRefusedError', 'TimeoutError'):
+        ctx.floor(f'delivery.failed.at_connect.{outcome}', 8)
+    for cls in DECOYS.values():
+        ctx.floor(f'delivery.suppressed.filter_decoy.{cls}', 10)
+    ctx.floor('delivery.expired_during_send.not_handed', 4)
+    for kind in BOGUS_KINDS:
+        for op in ('renew', 'getstatus', 'unsubscribe'):
+            ctx.floor(f'bogus.{kind}.{op}', 4)
+    for op, n in (('subscribe', 8), ('renew', 8), ('getstatus', 8), ('unsubscribe', 4)):
+        ctx.floor(f'consumer_class.{op}', n)
 
 
 def replay(ctx: core.Ctx, w):
